@@ -131,11 +131,24 @@ impl Driver {
                 },
             },
             COp::Append { q, pos, .. } => {
-                let res = log.append_records(
-                    &q.text(),
-                    *pos,
-                    payloads.iter().map(|bytes| &bytes[..]),
-                );
+                // Callers pass any iterator: every third call hands the batch over through a `filter` that drops
+                // interleaved dummy items, so that the iterator's size hint is inexact (lower bound 0, upper bound
+                // larger than the real count — also for an EMPTY batch).
+                let res = if op_index % 3 == 0 {
+                    let dummy: &[u8] = b"never appended: dropped by the caller's filter";
+                    let mut items: Vec<(bool, &[u8])> = vec![(false, dummy)];
+                    for bytes in payloads {
+                        items.push((true, &bytes[..]));
+                        items.push((false, dummy));
+                    }
+                    log.append_records(
+                        &q.text(),
+                        *pos,
+                        items.into_iter().filter(|(keep, _)| *keep).map(|(_, bytes)| bytes),
+                    )
+                } else {
+                    log.append_records(&q.text(), *pos, payloads.iter().map(|bytes| &bytes[..]))
+                };
                 match res {
                     Ok(outcome) => Real {
                         outcome: Outcome::Appended {
